@@ -30,10 +30,10 @@ namespace bloc
 Value& B64DECExpression::value(Context & ctx) const
 {
   Value& arg0 = _args[0]->value(ctx);
-  Value v(Value::type_literal);
+  Value v(Value::type_tabchar);
 
   if (arg0.isNull())
-    return ctx.allocate(Value(Value::type_literal));
+    return ctx.allocate(Value(Value::type_tabchar));
   else
   {
     switch (arg0.type().major())
